@@ -243,6 +243,25 @@ def add_dir_alias(rng, tree):
     return False
 
 
+def add_file_alias(rng, tree):
+    """Adds a symbolic link to one of the tree's regular files (README -> docs/README.txt), relative, inside the tree."""
+    if tree["single"] or len(tree["files"]) > 200:
+        return False
+    dirs = sorted({"/".join(f[0].split("/")[:k]) for f in tree["files"] for k in range(1, f[0].count("/") + 1)})
+    target = rng.choice(tree["files"])[0]
+    parent = rng.choice([os.path.dirname(target), ""] + dirs)
+    existing = {f[0] for f in tree["files"]} | set(dirs) | set(tree["dirs"]) | {l[0] for l in tree.get("links", ())}
+    for _ in range(4):
+        nm = rng.choice(["0-link", "zz-link", "latest.bin", "LINK", "~same"])
+        newrel = (parent + "/" if parent else "") + nm
+        if newrel in existing:
+            continue
+        tree.setdefault("links", []).append([newrel, target, "symfile"])
+        tree["layout"] += "+file-alias"
+        return True
+    return False
+
+
 def tree_root(base, tree):
     return os.path.join(base, tree["name"])
 
